@@ -241,6 +241,11 @@ func (c *Container) Peek(n int) []byte {
 		return nil
 	}
 
+	// Check if there is anything to look at.
+	if c.offset >= len(c.compartments) {
+		return nil
+	}
+
 	// Check if the first slice holds enough data.
 	if len(c.compartments[c.offset]) >= n {
 		return c.compartments[c.offset][:n]
